@@ -565,6 +565,31 @@ fn one_case(rng: &mut Rng, sink: &mut Sink, profile: Profile, doc: Option<GTree>
             sink.stat("parse-route.skipped-empty-or-adjacent-text");
         }
     }
+    // route (b'): another well-formed spelling of the same document — every text node written as
+    // CDATA sections (with the references the serialiser puts BETWEEN sections for CR and `]]>`), so
+    // that the parser merges CDATA and reference-bearing character data (seed C20h)
+    if text.is_some() && !default_namespace_hazard(&s.vocab, &t, 0) && no_empty_text(&t) && no_adjacent_text(&t) {
+        let mut names: Vec<xot::NameId> = vec![];
+        for n in s.xot.descendants(ra) {
+            if let Some(e) = s.xot.element(n) {
+                if !names.contains(&e.name()) {
+                    names.push(e.name());
+                }
+            }
+        }
+        let params = xot::output::xml::Parameters { cdata_section_elements: names, ..Default::default() };
+        match guarded(|| s.xot.serialize_xml_string(params, ra)) {
+            Some(Ok(x)) => match guarded(|| s.xot.parse(&x)) {
+                None => fail(sink, &s, "C20:parse-panics", &format!("parse of `{}` panicked", x)),
+                Some(Err(e)) => fail(sink, &s, "C20:cdata-serialisation-does-not-parse", &format!("`{}` (CDATA spelling of {}) is refused: {:?}", x, t.wire(), e)),
+                Some(Ok(rp)) => {
+                    sink.stat(if x.contains("]]>&") || x.contains("]]>]") { "parse-cdata-route.ok.with-reference-between-sections" } else { "parse-cdata-route.ok" });
+                    built.push(Built { route: "parse-cdata", node: rp });
+                }
+            },
+            _ => sink.stat("parse-cdata-route.skipped"),
+        }
+    }
     // pairwise agreement
     for i in 0..built.len() {
         for j in (i + 1)..built.len() {
